@@ -52,6 +52,14 @@ theorem join_streamed_terminates (v : Variant) {L R : List Int} {cs : Nat} (inv 
   obtain ⟨o, ho⟩ := key
   exact ⟨o, ho, streamed_calls_le ho⟩
 
+/-- the bound read off at the smallest admissible fuel: the number of kernel calls is LINEAR in the input and output sizes,
+    `≤ 2 · (|L| + |R| + 2·|left join| + 1)`, whatever the chunk size (the statement above bounds the calls by the fuel given, which
+    says this only after instantiating the fuel) -/
+theorem join_streamed_calls_linear (v : Variant) {L R : List Int} {cs : Nat} (inv : Int) (hcs : 0 < cs) (hv : Valid v L R) :
+    ∃ o, streamed v (bound L R) cs inv L R = .ok o ∧
+      o.calls ≤ 2 * (L.length + R.length + 2 * (leftJoin L R).length + 1) :=
+  join_streamed_terminates v inv hcs hv (bound L R) (Nat.le_refl _)
+
 /-- in particular: never `outOfFuel` (never spins), whatever the chunk size and however long the runs of equal keys -/
 theorem join_streamed_never_spins (v : Variant) {L R : List Int} {cs : Nat} (inv : Int) (hcs : 0 < cs) (hv : Valid v L R)
     (fuel : Nat) (hfuel : bound L R ≤ fuel) : streamed v fuel cs inv L R ≠ .error .outOfFuel := by
